@@ -27,4 +27,19 @@ theorem exArena_fresh : Fresh exArena 1 65536 64 := by
 /-- an allocator for the loader -/
 def exAlloc (i : Nat) : Nat := 1048576 * (i + 1)
 
+/-- a client session touching every kind of operation: a struct with two pointer fields; a pointer stored in
+    one of them; allocations that make both the pointed-to buffer and the buffer holding the slot grow before the
+    slot is read back; a pointer written and registered in one step at an unaligned offset, moved again, read
+    back; a slot registered after the fact; memcpy into raw bytes; a reference → pointer → reference query; a slot
+    over raw bytes registered and filled in one step, moved, read back -/
+def exOps : List Op :=
+  [ .struct 0 16 [0, 8], .write 1 [1, 2, 3], .setPtr ⟨0, 0⟩ (some ⟨1, 2⟩),
+    .write 1 [4, 5, 6, 7, 8, 9, 10, 11, 12, 13], .zalloc 0 40, .ref ⟨0, 0⟩,
+    .ptr 1 (some ⟨0, 20⟩), .zalloc 0 100, .ref ⟨1, 13⟩, .reloc 0 24, .setPtr ⟨0, 24⟩ (some ⟨0, 0⟩),
+    .poke ⟨1, 0⟩ [9, 9], .rt (some ⟨1, 5⟩), .ref ⟨0, 8⟩, .regPtr ⟨1, 3⟩ (some ⟨0, 155⟩), .write 1 [7, 7, 7, 7], .ref ⟨1, 3⟩ ]
+
+/-- two allocator schedules: ascending 4 KiB steps / descending 1 MiB steps -/
+def exBases₁ : List Nat := (List.range 17).map (fun i => 4096 * (i + 1))
+def exBases₂ : List Nat := (List.range 17).map (fun i => 1048576 * (20 - i))
+
 end YaraModel.Arena
